@@ -2,6 +2,7 @@ package props
 
 import (
 	"fmt"
+	"go/token"
 	"go/types"
 	"sort"
 	"strings"
@@ -296,6 +297,7 @@ func c01Transfer(r *core.Report, p *core.Prog, ta *ssa.Function, rule string) {
 		r.Unresolved(rule, "transferAmount.amount")
 		return
 	}
+	c01CanonicalIDs(r, p, ta, rule)
 	minus := core.CallsIn(ta, false, core.NameIs(pkgCurr+".MinusCoin"))
 	add := core.CallsIn(ta, false, core.NameIs(pkgCurr+".AddCoin"))
 	if !r.Check(len(minus) == 1 && len(add) == 1, rule, "transferAmount:one-debit-one-credit", p.Pos(ta.Pos()), fmt.Sprintf("MinusCoin=%d AddCoin=%d", len(minus), len(add))) {
@@ -593,7 +595,6 @@ func c01Genesis(r *core.Report, p *core.Prog, gb *ssa.Function) {
 	}
 }
 
-
 // isTooling: the function cannot run inside a miner or sharder: its package is not
 // linked into either binary, or it is unreachable from their entry points (VTA).
 func isTooling(p *core.Prog, fn *ssa.Function) bool {
@@ -601,4 +602,83 @@ func isTooling(p *core.Prog, fn *ssa.Function) bool {
 		return true
 	}
 	return !p.NodeReachable()[fn]
+}
+
+// c01CanonicalIDs: the trie's branch nodes fold the case of hex digits (read from the
+// dependency's own code: FullNode.index accepts both 'a'-'f' and 'A'-'F'), so two ids that
+// differ only in case address one account. The transfer primitive's `from != to` guard
+// compares raw strings; it is alias-proof only if ids that are not in canonical lower
+// case are refused (or folded) before any state is read.
+func c01CanonicalIDs(r *core.Report, p *core.Prog, ta *ssa.Function, rule string) {
+	folds := false
+	var idxFn *ssa.Function
+	for _, name := range []string{"(*github.com/0chain/common/core/util.FullNode).index"} {
+		if f := p.Func(name); f != nil {
+			idxFn = f
+		}
+	}
+	if idxFn == nil {
+		r.Unresolved(rule, "FullNode.index of github.com/0chain/common (is the trie case-folding?)")
+		return
+	}
+	lower, upper := false, false
+	for _, b := range idxFn.Blocks {
+		for _, in := range b.Instrs {
+			if bo, ok := in.(*ssa.BinOp); ok {
+				for _, v := range []ssa.Value{bo.X, bo.Y} {
+					if k, ok := core.ConstInt(v); ok {
+						if k == 97 || k == 102 {
+							lower = true
+						}
+						if k == 65 || k == 70 {
+							upper = true
+						}
+					}
+				}
+			}
+		}
+	}
+	folds = lower && upper
+	if !folds {
+		r.Pass(rule, "transferAmount:ids-cannot-alias", p.Pos(idxFn.Pos()), "the trie does not fold hex case: distinct id strings are distinct paths")
+		return
+	}
+	var ids []*ssa.Parameter
+	for _, prm := range ta.Params {
+		if strings.Contains(strings.ToLower(prm.Name()), "client") && prm.Type().Underlying().String() == "string" {
+			ids = append(ids, prm)
+		}
+	}
+	if !r.Check(len(ids) == 2, rule, "transferAmount:id-params", p.Pos(ta.Pos()), fmt.Sprintf("%d client id parameters", len(ids))) {
+		return
+	}
+	// first state access
+	reads := core.CallsIn(ta, false, func(c *ssa.CallCommon) bool {
+		return isSCtxCall(c, "GetClientState") || isSCtxCall(c, "SetClientState")
+	})
+	if !r.Check(len(reads) > 0, rule, "transferAmount:state-access", p.Pos(ta.Pos()), "client state accessed") {
+		return
+	}
+	for _, id := range ids {
+		okAll := true
+		why := ""
+		for _, rd := range reads {
+			blk := rd.Instr.Block()
+			ok := false
+			for _, f := range CmpFacts(blk) {
+				isLower := func(v ssa.Value) bool {
+					c, isC := v.(*ssa.Call)
+					return isC && core.CalleeName(c.Common()) == "strings.ToLower" && c.Call.Args[0] == ssa.Value(id)
+				}
+				if f.Op == token.EQL && ((f.X == ssa.Value(id) && isLower(f.Y)) || (f.Y == ssa.Value(id) && isLower(f.X))) {
+					ok = true
+				}
+			}
+			if !ok {
+				okAll = false
+				why = "state access at " + p.Pos(rd.Pos()) + " is not dominated by " + id.Name() + " == strings.ToLower(" + id.Name() + ")"
+			}
+		}
+		r.Check(okAll, rule, "transferAmount:canonical-id:"+id.Name(), p.Pos(ta.Pos()), "the trie folds hex case (FullNode.index), so only canonical lower-case ids may reach the account state; "+why)
+	}
 }
